@@ -142,4 +142,27 @@ CHECKS = {
              "thorough": {"checks": 2500, "shards": 16, "timeout": 3400}},
         ],
     },
+    "C17": {
+        "level": "exploration",
+        "level_text": ("White box: the real per-file dispatch state (sendFileState: nextChunkToSend / markChunkDone / trySendEnd) is "
+                       "driven by an interleaving explorer that enumerates EVERY interleaving of up to 2 (thorough 3) workers' "
+                       "take/finish steps with the arrival of the resume report (two atomic sub-steps as in the code) and of the "
+                       "verification verdict, for all chunk counts <= 4 (thorough 6), all bitmaps, tails 0-2 and verdicts; larger sizes "
+                       "are sampled with random schedules. Black box: the real SendManifestMultiStream against a scripted receiver on "
+                       "the in-memory transport with a wire tap, resume reports at generated moments. Oracle from the statement: exactly "
+                       "one FileBegin per file, needed chunks exactly once, reported-present chunks not after the report, failed chunk "
+                       "re-sent exactly once, exactly one FileEnd after every handed-out chunk, the verdict and the re-send."),
+        "level_note": "Bounded-exhaustive only inside the stated bound and at lock granularity (the three methods are atomic under state.mu); the plan computation closure is reached by the wire-level unit only.",
+        "technique": "exhaustive interleaving enumeration (DFS with state memoisation) of the real dispatch state machine + rapid-sampled schedules + wire-level scripted-receiver tests",
+        "rule": ("configuration = (chunks, workers, bitmap, tail, verdict); every maximal interleaving is explored to its terminal "
+                 "state (evaluations = terminal states reached). Non-trivial = >= 2 workers and a report with a non-empty bitmap; "
+                 "distinct by configuration (exhaustive unit) or configuration+schedule (random unit)."),
+        "assumptions": ["atomicity of the three methods under state.mu"],
+        "exhaustive_if_units": ["statemachine"],
+        "units": [
+            {"name": "transfer", "pkg": T, "run": "^TestVerifC17",
+             "quick": {"checks": 3000, "shards": 4, "timeout": 900},
+             "thorough": {"checks": 40000, "shards": 16, "timeout": 3400}},
+        ],
+    },
 }
